@@ -1,6 +1,6 @@
 (* C03 — What is shipped is decided by .terraformignore semantics on archive paths. *)
-From Slug Require Import Base.Str Ignore.Rules Ignore.Glob Ignore.GlobProofs Ignore.RulesProofs
-  Ignore.Prune Ignore.Defaults.
+From Slug Require Import Base.Str Base.PathAlg Base.PathLemmas Ignore.Rules Ignore.Glob Ignore.GlobProofs Ignore.RulesProofs
+  Ignore.Prune Ignore.Defaults FS.FS FS.FSProofs Slug.Unpack Slug.Pack Slug.RoundTrip Slug.RoundTripPack Slug.PackIgnore.
 
 (* 1. The pattern-to-regexp translation implements the documented language:
       for every well-formed written pattern and every path without a newline,
@@ -49,7 +49,7 @@ Proof. exact dominating_sound. Qed.
       for every tree. *)
 Theorem C03_prune_eq_filter :
   forall rules, flags_sound rules -> (forall r, In r rules -> rule_ok r) ->
-  forall t prefix, tree_ok t -> walk true rules prefix t = walk false rules prefix t.
+  forall t prefix, tree_ok t -> Prune.walk true rules prefix t = Prune.walk false rules prefix t.
 Proof. exact prune_eq_filter. Qed.
 
 (* 6. The built-in rules. *)
@@ -59,6 +59,77 @@ Theorem C03_defaults :
     fst (excludes (default_rules flags) path) = true <->
     (under [name_git] segs \/ (under [name_tf] segs /\ ~ under [name_tf; name_mod] segs)).
 Proof. exact defaults_spec. Qed.
+
+(* 7. The same on the model of Pack itself (not the abstract walk): for every
+      file system holding, at the source path, a tree of regular files,
+      directories, special files and links that stay inside (sorted listings,
+      names without a newline, any depth and width), every option set and
+      working directory, and whatever rule set parseIgnoreFile loads (from the
+      tree's .terraformignore under the current state of the shared flags, or
+      the built-in rules) - provided its rules that end in "**" compile to a
+      trailing ".*" (rule_ok; evaluated per run) - Pack succeeds and writes
+      exactly those entries of the tree, in order, that [keep] lets through:
+      a file, link or directory appears iff its own path is not excluded (for
+      a directory: neither "d" nor "d/"), also below an excluded directory.
+      Pruning (SkipDir) and the negations-after flags play no part in the
+      result.  With ignore processing off [rules] is None and nothing is
+      filtered. *)
+Theorem C03_pack_ships_exactly_the_unexcluded :
+  forall fs opts flags cwd fuel pre x pmR mtR ks rules flags',
+    is_dir fs = true -> rdir fs pre -> forallb seg_ok (pre ++ [x]) = true ->
+    get fs (pre ++ [x]) = Some (to_node (SDir pmR mtR ks)) ->
+    sheight (SDir pmR mtR ks) < fuel -> wfs (SDir pmR mtR ks) ->
+    wf (SDir pmR mtR ks) -> links_ok [] (SDir pmR mtR ks) -> nlfree (SDir pmR mtR ks) ->
+    load_rules fs opts flags cwd (join_abs (pre ++ [x])) = (rules, flags') ->
+    (forall rs, rules = Some rs -> flags_sound rs /\ (forall r, In r rs -> rule_ok r)) ->
+    exists files size,
+      pack fuel fs opts flags cwd (join_abs (pre ++ [x]))
+      = (PackOk (map of_entry (filter (keep rules) (kids_entries [] ks))) files size, flags').
+Proof. exact pack_ignore_tree. Qed.
+
+(* the flags part of that hypothesis holds for every rule set Pack can load *)
+Theorem C03_loaded_rules_have_sound_flags :
+  forall fs opts flags cwd src rs fl,
+    flags_reachable flags -> load_rules fs opts flags cwd src = (Some rs, fl) -> flags_sound rs.
+Proof. exact load_rules_sound. Qed.
+
+(* [keep] spelled out: the entry's own path decides *)
+Theorem C03_keep_is_own_path :
+  forall rs e,
+    keep (Some rs) e =
+    if N.eqb (e_type e) ty_dir
+    then negb (fst (excludes rs (removelast (e_name e)))) && negb (fst (excludes rs (e_name e)))
+    else negb (fst (excludes rs (e_name e))).
+Proof. reflexivity. Qed.
+
+Theorem C03_nothing_filtered_without_ignore :
+  forall es, filter (keep None) es = es.
+Proof.
+  induction es as [|e es IH]; [reflexivity|]. cbn [filter]. unfold keep at 1. cbn [excl fst negb andb].
+  destruct (N.eqb (e_type e) ty_dir); now rewrite IH.
+Qed.
+
+(* a concrete run: rules "*.tf", "!x.tf", "logs/", "!logs/keep" on a tree
+   with a re-included file below an excluded directory *)
+Example C03_pack_instance :
+  let ign := s2l ("*.tf" ++ String (ch 10) ("!x.tf" ++ String (ch 10) ("logs/" ++ String (ch 10) "!logs/keep"))) in
+  let t := SDir 493 None
+             [(s2l ".terraformignore", SFile ign 420 None);
+              (s2l "a.tf", SFile (s2l "a") 420 None);
+              (s2l "logs", SDir 493 None [(s2l "keep", SFile (s2l "k") 420 None); (s2l "z.log", SFile (s2l "z") 420 None)]);
+              (s2l "x.tf", SFile (s2l "x") 420 None)] in
+  let fs := Dir 493 None [(s2l "s", to_node t)] in
+  let opts := mkOpts false true [] in
+  match load_rules fs opts pristine_flags [] (s2l "/s") with
+  | (Some rs, _) =>
+      forallb rule_okb rs = true /\
+      match fst (pack 10 fs opts pristine_flags [] (s2l "/s")) with
+      | PackOk es _ _ => map pe_name es = [s2l ".terraformignore"; s2l "logs/keep"; s2l "x.tf"]
+      | _ => False
+      end
+  | _ => False
+  end.
+Proof. vm_compute. split; reflexivity. Qed.
 
 (* Without the "**"-suffix condition on Dominating (the code before the fix:
    commit 58cc8ec) statement 4 is false: the rule "/a/*" matches "a/" with an
@@ -86,3 +157,7 @@ Print Assumptions C03_last_match_wins.
 Print Assumptions C03_dominating_sound.
 Print Assumptions C03_prune_eq_filter.
 Print Assumptions C03_defaults.
+Print Assumptions C03_pack_ships_exactly_the_unexcluded.
+Print Assumptions C03_loaded_rules_have_sound_flags.
+Print Assumptions C03_keep_is_own_path.
+Print Assumptions C03_nothing_filtered_without_ignore.
